@@ -58,7 +58,7 @@ class Gen:
             n = self.nodes[nid - 1]
             for key in ("name", "fields", "variants", "tag", "rename_all", "deny", "validate", "error", "cfrom", "cfn", "cref", "kids", "vfn", "denyfn"):
                 n[key] = info[key]
-            self.rust_ty[nid] = "P<%d, %s>" % (nid, d["name"])
+            self.rust_ty[nid] = "P<%d, %s%s>" % (nid, d["name"], ("<%s>" % ", ".join(info["generic_args"])) if info["generic_args"] else "")
             return nid
         nid = self.new_node(k)
         n = self.nodes[nid - 1]
@@ -113,11 +113,16 @@ class Gen:
                 dflt = "expr"
                 dval = C.rv("wrap", name="w%d" % kid, e=[f["default"][2]]) if wrapped else f["default"][2]
             rust_field_ty = ("W<%d, %s>" % (kid, self.rust_ty[kid])) if wrapped else self.rust_ty[kid]
+            if f.get("param"):
+                if wrapped:
+                    raise ValueError("a type-parameter field cannot carry from / try_from in the catalogue")
+                self.cur_generics.append((f["param"], self.rust_ty[kid], bool(f.get("needs"))))
+                rust_field_ty = f["param"]
             out.append({"ident": unraw(f["ident"]), "src_ident": f["ident"], "node": kid, "rename": optstr(f["rename"]),
                         "dflt": dflt, "dval": dval, "skip": f["skip"], "mapfn": ("m_%d" % kid) if f["map"] else "",
                         "frm": fr["kind"] if fr else "none", "fromref": bool(fr and fr.get("ref")), "fn": ("f_%d" % kid) if fr else "",
                         "missfn": ("mf_%d" % kid) if f["missing_fn"] else "", "ety": "F" if f["error"] else "E",
-                        "decl_ty": f["ty"], "rust_field_ty": rust_field_ty, "wrapped": wrapped})
+                        "decl_ty": f["ty"], "rust_field_ty": rust_field_ty, "wrapped": wrapped, "needs": bool(f.get("needs"))})
         return out
 
     def default_rv(self, ty):
@@ -149,6 +154,7 @@ class Gen:
         info = {"name": d["name"], "fields": [], "variants": [], "tag": "", "rename_all": d["rename_all"] or "", "deny": d["deny"] or "",
                 "validate": bool(d["validate"]), "error": d["error"] or "", "cfrom": "", "cfn": "", "cref": False, "kids": [],
                 "vfn": ("v_%s" % d["name"]) if d["validate"] else "", "denyfn": ("df_%s" % d["name"]) if d["deny"] == "fn" else ""}
+        self.cur_generics = []
         if d["kind"] == "struct" and d.get("cfrom"):
             info["c"] = "cfrom"
             kid = self.occ(d["cfrom"]["ty"])
@@ -169,6 +175,8 @@ class Gen:
                 info["variants"].append({"ident": unraw(v["ident"]), "src_ident": v["ident"], "rename": optstr(v["rename"]),
                                          "rename_all": v["rename_all"] or "", "unit": v["fields"] is None,
                                          "fields": self.expand_fields(d, v["fields"] or [])})
+        info["generics"] = list(self.cur_generics)                      # (parameter, concrete Rust type, via needs_predicate)
+        info["generic_args"] = [g[1] for g in self.cur_generics]
         self.def_info[d["name"]] = info
         return info
 
@@ -185,6 +193,7 @@ class Gen:
         if f["mapfn"]: a.append("map = %s" % f["mapfn"])
         if f["missfn"]: a.append("missing_field_error = %s" % f["missfn"])
         if src["error"]: a.append("error = %s" % src["error"])
+        if f.get("needs"): a.append("needs_predicate")
         return ("#[deserr(%s)] " % ", ".join(a)) if a else ""
 
     def emit_fns(self, name):
@@ -283,6 +292,12 @@ class Gen:
         if d["error"]: cattrs.append("error = %s" % d["error"])
         if d["deny"] == "fn": cattrs.append("deny_unknown_fields = %s" % info["denyfn"])
         if d["validate"]: cattrs.append("validate = %s -> FnErr" % info["vfn"])
+        gens = info.get("generics") or []
+        for g in gens:
+            if not g[2]:
+                cattrs.append("where_predicate = %s: deserr::Deserr<%s>" % (g[0], d["error"] or "__Deserr_E"))
+        gp = ("<%s>" % ", ".join(g[0] for g in gens)) if gens else ""
+        gpb = ("<%s>" % ", ".join("%s: ToJ" % g[0] for g in gens)) if gens else ""
         if info["cfn"]:
             it = self.rust_ty[info["kids"][0]]
             if info["cfrom"] == "from": cattrs.append("from(%s%s) = %s" % ("&" if info["cref"] else "", it, info["cfn"]))
@@ -303,10 +318,10 @@ class Gen:
             out.append("}")
             return out
         if d["kind"] == "struct":
-            out.append("pub struct %s {" % name)
+            out.append("pub struct %s%s {" % (name, gp))
             out += self.emit_fields(info["fields"], d["fields"], "    ", True)
             out.append("}")
-            out.append("impl ToJ for %s {" % name)
+            out.append("impl%s ToJ for %s%s {" % (gpb, name, gp))
             out.append("    fn to_j(&self) -> J {")
             out.append('        let mut r = rv("struct");')
             out.append('        r["name"] = json!("%s");' % name)
@@ -315,7 +330,7 @@ class Gen:
             out.append("    }")
             out.append("}")
         else:
-            out.append("pub enum %s {" % name)
+            out.append("pub enum %s%s {" % (name, gp))
             for v, vs in zip(info["variants"], d["variants"]):
                 va = []
                 if vs["rename"] is not None: va.append('rename = "%s"' % vs["rename"])
@@ -328,7 +343,7 @@ class Gen:
                     out += self.emit_fields(v["fields"], vs["fields"], "        ", False)
                     out.append("    },")
             out.append("}")
-            out.append("impl ToJ for %s {" % name)
+            out.append("impl%s ToJ for %s%s {" % (gpb, name, gp))
             out.append("    fn to_j(&self) -> J {")
             out.append('        let mut r = rv("variant");')
             out.append("        match self {")
